@@ -65,32 +65,39 @@ impl PatchList {
             }
         };
 
-        let parts: Vec<_> = encoded.split("\r\n").collect();
-        for i in 5..parts.len() - 2 {
-            let patch_parts: Vec<_> = parts[i].split('\t').collect();
+        // rows that are too short or carry something that is not a number are skipped
+        let parse_row = |row: &str| -> Option<PatchEntry> {
+            let patch_parts: Vec<_> = row.split('\t').collect();
 
             if patch_type == PatchListType::Boot {
-                patches.push(PatchEntry {
-                    url: patch_parts[5].parse().unwrap(),
-                    version: patch_parts[4].parse().unwrap(),
+                Some(PatchEntry {
+                    url: patch_parts.get(5)?.to_string(),
+                    version: patch_parts.get(4)?.to_string(),
                     hash_block_size: 0,
-                    length: patch_parts[0].parse().unwrap(),
-                    size_on_disk: patch_parts[1].parse().unwrap(),
+                    length: patch_parts.first()?.parse().ok()?,
+                    size_on_disk: patch_parts.get(1)?.parse().ok()?,
                     hashes: vec![],
                     unknown_a: 0,
                     unknown_b: 0,
-                });
+                })
             } else {
-                patches.push(PatchEntry {
-                    url: patch_parts[8].parse().unwrap(),
-                    version: patch_parts[4].parse().unwrap(),
-                    hash_block_size: patch_parts[6].parse().unwrap(),
-                    length: patch_parts[0].parse().unwrap(),
-                    size_on_disk: patch_parts[1].parse().unwrap(),
-                    hashes: patch_parts[7].split(',').map(|x| x.to_string()).collect(),
+                Some(PatchEntry {
+                    url: patch_parts.get(8)?.to_string(),
+                    version: patch_parts.get(4)?.to_string(),
+                    hash_block_size: patch_parts.get(6)?.parse().ok()?,
+                    length: patch_parts.first()?.parse().ok()?,
+                    size_on_disk: patch_parts.get(1)?.parse().ok()?,
+                    hashes: patch_parts.get(7)?.split(',').map(|x| x.to_string()).collect(),
                     unknown_a: 0,
                     unknown_b: 0,
-                });
+                })
+            }
+        };
+
+        let parts: Vec<_> = encoded.split("\r\n").collect();
+        for row in parts.iter().take(parts.len().saturating_sub(2)).skip(5) {
+            if let Some(patch) = parse_row(row) {
+                patches.push(patch);
             }
         }
 
